@@ -244,6 +244,16 @@ def synthetic_messages(seed, n, collide=True):
             # (centre 98: none, 1, 101), containing an id whose meaning depends on the local table
             out.extend(_local_twins(rng, seed, i))
             continue
+        if collide and i % 11 == 7:
+            # an NCEP-layout table-definition message (data category 11) over ids nobody else uses
+            from sim import defsim
+            eids = rng.sample(range(48000, 64000), rng.randint(1, 4))
+            b_entries = [defsim.gen_b_entry(rng, e) for e in eids if e % 1000 < 256]
+            if b_entries:
+                msg, _t = defsim.write_definition(rng, rng.choice([13, 13, 20, 33]), rng.choice([3, 4]), b_entries, [],
+                                                  [('%03d' % rng.randint(200, 255), 'VERIF', 'POOL')])
+                out.append({'ref': 'synth:%d:def%d' % (seed, i), 'hex': msg.hex(), 'src': 'synth'})
+            continue
         if collide and i % 7 == 5:
             # 'nest twins': identical top-level descriptor ids, different members inside a replication
             out.extend(_nest_twins(rng, seed, i))
